@@ -21,7 +21,7 @@ ENV = {"MSCRIPT_VERIF_TYPED_PRINT": "1"}
 
 L = lambda k, v: ("lit", k, v)
 LEAVES = [L("int", v) for v in (0, 1, 2, 3, 7, 31, 32, 2147483647)] + [L("wide", 2147483648)] + \
-         [L("bigint", v) for v in (0, 1, 5, 2 ** 31, 2 ** 127 - 1)] + [L("float", v) for v in (0.0, 0.5, 1.5, 2.0, 1e300)] + \
+         [L("bigint", v) for v in (0, 1, 5, 2 ** 31, 2 ** 127 - 1)] + [L("float", v) for v in (0.0, 0.5, 1.5, 2.0, 0.1, 16777216.5, 3000000000.5, 1e300)] + \
          [L("byte", v) for v in (0, 1, 2, 255)]
 SMALL = [L("int", 1), L("int", 2147483647), L("bigint", 2), L("float", 1.5), L("byte", 255), L("int", 0)]
 ARITH = ["+", "-", "*", "/", "%"]
